@@ -6,7 +6,7 @@ import multiprocessing as mp
 import os
 import random
 
-from . import gen_pos, treejson as TJ
+from . import build as B, gen_pos, treejson as TJ
 from .core import Outcome, stable_hash
 
 STORY_LEVEL = {'StorySend', 'StoryAppend', 'StoryDelete', 'StoryInsert', 'StoryMove', 'StoryReplace',
@@ -237,9 +237,10 @@ def evaluate(pid, cases, oc=None, compare_outside_domain=False):
     if pid == 'C06':
         collection_route(oc, [(c, t, o) for c, t, o in zip(cases, texts, impl_obs)
                               if 'err' in o and not o['err'] and len(o.get('warns') or []) >= 2 and 'live_history' not in c])
-    if pid == 'C04':
+    if pid in ('C01', 'C02', 'C03', 'C04'):
         collection_payload_route(oc, pid, [(c, t, o) for c, t, o in zip(cases, texts, impl_obs)
-                                           if 'err' in o and not o['err'] and 'live_history' not in c and c['cls'] in CARRYING])
+                                           if 'err' in o and not o['err'] and 'live_history' not in c and (pid != 'C04' or c['cls'] in CARRYING)],
+                                 limit=300 if pid == 'C04' else 120)
     if pid == 'C12':
         nonstrict_route(oc, [(c, t, o) for c, t, o in zip(cases, texts, impl_obs)
                              if 'err' in o and (o['err'] in ('MosMergeError', 'MosCompletedMergeError') or (not o['err'] and o['warns'])) and 'live_history' not in c])
@@ -496,21 +497,52 @@ def collection_payload_route(oc, pid, triples, limit=300):
                 ('roReplace with CDATA', '<mos><mosID>m</mosID><ncsID>n</ncsID><messageID>2</messageID><roReplace><roID>RO1</roID><roSlug><![CDATA[Sp\u00e4t]]></roSlug><story><storyID>R</storyID>%s</story></roReplace></mos>' % rich),
                 ('roItemInsert with CDATA', '<mos><mosID>m</mosID><ncsID>n</ncsID><messageID>2</messageID><roItemInsert><roID>RO1</roID><storyID>A</storyID><itemID>a1</itemID><item><itemID>n1</itemID><note><![CDATA[\u00e9\u00e8]]></note></item></roItemInsert></mos>'),
                 ('declared ISO-8859-1 given as str', '<?xml version="1.0" encoding="ISO-8859-1"?><mos><mosID>m</mosID><ncsID>n</ncsID><messageID>2</messageID><roStoryAppend><roID>RO1</roID><story><storyID>N</storyID><p>Caf\u00e9 owners \u00a320</p></story></roStoryAppend></mos>')]
-    jobs = [(lbl, ro0, m) for lbl, m in scripted]
+    scripted.append(('roStorySend with mixed content', '<mos><mosID>m</mosID><ncsID>n</ncsID><messageID>2</messageID><roStorySend><roID>RO1</roID><storyID>A</storyID><storyBody>'
+                     '<p>Live from <b>Paris</b> <i>tonight</i> and  <b>two</b>\n<i>lines</i></p><storyItem><itemID>n1</itemID><note>a <em>b</em> c</note></storyItem></storyBody></roStorySend></mos>'))
+    jobs = [(lbl, ro0, [m]) for lbl, m in scripted]
+    cli_budget = [len(jobs) + 8]        # the scripted documents and a few of the enumerated cases also through the CLI
+    # look-alike IDs that differ in one non-ASCII letter, in documents that declare ISO-8859-1 (files and S3 objects hold
+    # the bytes in that encoding): whichever way the documents come in, each message finds the story / item it names
+    d1 = '<?xml version="1.0" encoding="ISO-8859-1"?>'
+    ro_acc = d1 + TJ.to_text(B.ro_doc([B.story('\u00d61', [B.item('\u00e91'), B.item('\u00e81')]), B.story('\u00dc1', [B.item('\u00e91')]), B.story('O1', [])], message_id='1'))
+    jobs += [('look-alike non-ASCII IDs: story delete', ro_acc, [d1 + TJ.to_text(B.story_delete(['\u00dc1'], message_id='2'))]),
+             ('look-alike non-ASCII IDs: item delete', ro_acc, [d1 + TJ.to_text(B.item_delete('\u00d61', ['\u00e81'], message_id='2'))]),
+             ('look-alike non-ASCII IDs: story move', ro_acc, [d1 + TJ.to_text(B.story_move(['O1', '\u00d61'], message_id='2'))]),
+             ('look-alike non-ASCII IDs: item move', ro_acc, [d1 + TJ.to_text(B.item_move_multiple('\u00d61', ['\u00e81', '\u00e91'], message_id='2'))])]
+    # a roReplace in mid-history followed by messages that act on what it brought
+    X = lambda i: B.story(i, [B.item(i + '-1')])
+    ro4 = TJ.to_text(B.ro_doc([X('A'), X('B'), X('C'), X('D')], message_id='1'))
+    jobs += [('roReplace, then a move of replaced stories', ro4, [TJ.to_text(B.ro_replace([X('D'), X('C'), X('B'), X('A')], message_id='2')), TJ.to_text(B.story_move(['A', 'D'], message_id='3'))]),
+             ('roReplace, then an item insert', ro4, [TJ.to_text(B.ro_replace([X('Q'), X('A')], message_id='2')), TJ.to_text(B.item_insert('Q', 'Q-1', [B.item('n')], message_id='3'))])]
     step = max(1, len(triples) // limit)
-    jobs += [(c['label'], rt, mt) for c, (rt, mt), o in triples[::step]]
-    for lbl, ro_text, msg_text in jobs:
-        ro_text, msg_text = ro_text.replace('\r', '&#13;'), msg_text.replace('\r', '&#13;')
+    jobs += [(c['label'], rt, [mt]) for c, (rt, mt), o in triples[::step]]
+    for lbl, ro_text, msgs in jobs:
+        ro_text, msgs = ro_text.replace('\r', '&#13;'), [m.replace('\r', '&#13;') for m in msgs]
+        msg_text = msgs[-1]
         try:
             with warnings.catch_warnings():
                 warnings.simplefilter('ignore')
                 ro = impl.load(ro_text)
-                ro += impl.load(msg_text)
+                for m in msgs:
+                    ro += impl.load(m)
             direct = TJ.to_tree(ro.xml)
         except Exception:  # noqa: BLE001 - not a successful merge: nothing arrives
             continue
-        for via in ('strings', 'files'):
-            o = coll_family.impl_collection([ro_text, msg_text], True, False, via=via)
+        if cli_budget[0] > 0:
+            # ... and merged by the command line (to stdout, and to -o over an existing file): what it writes reads back the same
+            cli_budget[0] -= 1
+            from . import io_family
+            for to_file in (False, True):
+                r = io_family.cli_merge_tree([ro_text] + msgs, to_file, extra=['-i'])
+                oc.evaluations += 1
+                oc.count('collection-payload-route:cli')
+                if 'tree' in r and r['tree'] != direct or 'unreadable' in r:
+                    oc.failing.append({'kind': 'add', 'label': lbl + f':via mosromgr merge {"-o" if to_file else "(stdout)"}', 'cls': '?', 'ro_text': ro_text, 'msg_text': msg_text,
+                                       'payload_route': 'cli',
+                                       'spec': 'merged by the command line and read back, the messages leave the running order they leave when added directly',
+                                       'impl': {'cli': TJ.to_text(r['tree'])[:1500] if 'tree' in r else r, 'direct': TJ.to_text(direct)[:1500]}})
+        for via in ('strings', 'files', 's3'):
+            o = coll_family.impl_collection([ro_text] + msgs, True, False, via=via)
             if o['err'] is not None or not o['run']:
                 continue                      # not a collection (odd message IDs, another roID): C11's business
             oc.evaluations += 1
@@ -518,7 +550,7 @@ def collection_payload_route(oc, pid, triples, limit=300):
             if o['run']['err'] is not None or o['run']['ro'] != direct:
                 oc.failing.append({'kind': 'add', 'label': lbl + f':via collection from {via}', 'cls': '?', 'ro_text': ro_text, 'msg_text': msg_text,
                                    'payload_route': via,
-                                   'spec': 'merged as a document of a collection the message leaves the running order it leaves when added directly (what it carries arrives as the document says)',
+                                   'spec': 'merged as documents of a collection (strings, files, S3 objects) the messages leave the running order they leave when added directly',
                                    'impl': {'err': o['run']['err'], 'collection': TJ.to_text(o['run']['ro'])[:1500], 'direct': TJ.to_text(direct)[:1500]}})
 
 
